@@ -122,6 +122,9 @@ func (la *lockAnalysis) run(fn *ssa.Function, entry int) {
 	}
 }
 
+// emitAddRefusals: set by ruleC06 while it borrows this rule's access model (C06.R8)
+var emitAddRefusals bool
+
 func ruleC18(w *World) {
 	w.floor("C18.R1", 8)
 	w.floor("C18.R2", 8)
@@ -546,6 +549,7 @@ func ruleC18(w *World) {
 	w.ok("C18.R3", T.Obj().Name()+"/immutable-fields", T.Obj().Pos(), fmt.Sprintf("fields never written outside the constructor: %v (any new writer makes the field lock-protected and its unlocked readers violations of R1)", imm))
 	// R4: sequential facts of the single critical sections
 	nmu := 0
+	addSeen := map[*ssa.Function]bool{}
 	for _, a := range accs {
 		if ctor[a.fn] {
 			continue
@@ -576,6 +580,24 @@ func ruleC18(w *World) {
 			key := fnKey(a.fn) + "/map-update"
 			w.check(okHas, "C18.R4", key+"/not-yet-present", a.ins.Pos(), "share stored only if the signer has none yet", "share map updated without the `signer has no share yet` guard (one share per signer can be violated)", factStrings(fs)...)
 			w.check(okEnough, "C18.R4", key+"/not-enough-yet", a.ins.Pos(), "share stored only while fewer than t+1 are held", "share map updated without the `not enough shares yet` guard (more than t+1 shares can be retained and EnoughShares can revert)", factStrings(fs)...)
+			// C06.R8 (emitted here, re-labelled by ruleC06): the documented refusal of a signer that already has a share
+			// precedes every error-free outcome of the method that adds shares — not only the map update itself
+			if emitAddRefusals && !addSeen[a.fn] {
+				addSeen[a.fn] = true
+				for _, r := range returnsFlat(a.fn) {
+					if len(r.Results) == 0 || !isNilConst(r.Results[len(r.Results)-1]) {
+						continue
+					}
+					tested := false
+					tf := w.testedBefore(r)
+					for _, f := range tf {
+						if isHas(f.Expr) {
+							tested = true
+						}
+					}
+					w.check(tested, "C06.R8", fnKey(a.fn)+"/error-free-return/signer-is-new", retPos(r), "every error-free outcome follows the `signer has no share yet` test", "an error-free outcome is reachable without the `signer has no share yet` test: a duplicate signer is not refused with the documented error on this path", factStrings(tf)...)
+				}
+			}
 			// the guards must have been evaluated in this critical section: the reads they depend on happen with the exclusive lock held
 			for _, f := range fs {
 				if isHas(f.Expr) || isEnough(f.Expr) {
